@@ -25,6 +25,7 @@ def ofBytes (b : Bytes) : List Nat := b.map (·.toNat)
   tsstr <fields> <extra>      → bytes                     (SuTimestamp.String)
   lit <bytes>                 → d fields | t fields extra | !nil   (DateFromLiteral)
   jdn y m d                   → int
+  wday <fields>               → 0..6                      (WeekDay, Sunday = 0)
 -/
 def step (l : List String) : String :=
   match l with
@@ -68,6 +69,9 @@ def step (l : List String) : String :=
       | some (f, 0) => "d " ++ showFields f
       | some (f, x) => "t " ++ showFields f ++ s!" {x}"
       | none => "!nil"
+    | none => "bad-op"
+  | "wday" :: r => match parseFields r with
+    | some f => toString (weekDay f)
     | none => "bad-op"
   | ["jdn", y, m, d] => match parseInt y, parseInt m, parseInt d with
     | some y, some m, some d => toString (jdn y m d)
